@@ -39,9 +39,10 @@ import (
 
 const (
 	memLimit      = 4 << 30
+	smallLimit    = 512 << 20
 	allocSlack    = 16 << 20
 	allocPerByte  = 1024
-	watchdogCPU   = 30 * time.Second
+	watchdogCPU   = 60 * time.Second
 	watchdogWall  = 15 * time.Minute
 )
 
@@ -419,6 +420,7 @@ type executor struct {
 	caseSeq   atomic.Int64
 	scratch   []byte
 	topCache  map[string]string
+	lastProf  map[[32]uintptr]profEntry
 	curUnit   int
 	curM      int
 	violated  bool // the running case has produced a violation
@@ -484,23 +486,20 @@ func errClass(err error) string {
 	return s
 }
 
-// allocTop re-runs the case with every allocation of at least 512 KiB sampled and returns the
-// innermost repository function on the stack of the largest allocation.
-func (e *executor) allocTop(t *dtarget, in []byte) string {
-	runtime.GC()
-	runtime.GC()
-	before := snapshotProfile()
-	guard(func() { t.decode(in) })
+// allocTop returns the innermost repository function on the stack of the largest allocation made
+// since the previous call (allocations of 512 KiB and more are always in the memory profile).
+func (e *executor) allocTop() string {
 	runtime.GC()
 	runtime.GC()
 	after := snapshotProfile()
 	best, top := int64(0), "?"
 	for k, a := range after {
-		d := a.bytes - before[k].bytes
+		d := a.bytes - e.lastProf[k].bytes
 		if d > best {
 			best, top = d, a.top
 		}
 	}
+	e.lastProf = after
 	return top
 }
 
@@ -587,7 +586,7 @@ func (e *executor) runCaseKey(t *dtarget, in []byte, key string, desc func() str
 			}
 			top, ok := e.topCache[ck]
 			if !ok || ck == "" {
-				top = e.allocTop(t, in)
+				top = e.allocTop()
 				if ck != "" {
 					e.topCache[ck] = top
 				}
@@ -741,8 +740,22 @@ func (e *executor) memoAdd(key string) {
 	}
 }
 
+// setAddressSpace sets the soft address-space limit of the executor: the full 4 GiB for nesting
+// towers (the goroutine stack grows by doubling), 512 MiB for everything else, so that an
+// absurd allocation fails at once instead of page-faulting through gigabytes. Any allocation that
+// can fail under 512 MiB is far beyond the C02 bound (16 MiB + 1 KiB per input byte, inputs of
+// these units are shorter than 64 KiB).
+func setAddressSpace(kind string) {
+	lim := syscall.Rlimit{Cur: smallLimit, Max: memLimit}
+	if kind == "tower" {
+		lim.Cur = memLimit
+	}
+	syscall.Setrlimit(syscall.RLIMIT_AS, &lim)
+}
+
 func (e *executor) runUnit(ui int, skip map[int]bool) {
 	u := e.plan.units[ui]
+	setAddressSpace(u.Kind)
 	t := e.plan.targets[u.Target]
 	e.res = &unitResult{Unit: ui, Outcomes: map[string]int64{}}
 	switch u.Kind {
@@ -956,7 +969,8 @@ const gridChunks = 16
 var gridTypes = []byte{0x01, 0x03, 0x06, 0x0c, 0x0f, 0x11, 0x15, 0x16, 0x17, 0x18, 0x19} // Boolean Byte Int32 String ByteString NodeId LocalizedText ExtObj DataValue Variant DiagInfo
 var gridLens = []int32{-2147483648, -65536, -2, -1, 0, 1, 2, 3, 4, 6, 0xffff, 0x10000, 0x7fffffff}
 var gridDimCounts = []int32{-2147483648, -1, 0, 1, 2, 3, 4, 0x10000, 0x7fffffff}
-var gridDims = []int32{-1, 0, 1, 2, 3, 0x8000, 0x10000, 0x7fffffff}
+var gridDimsSmall = []int32{-1, 0, 1, 2, 3}
+var gridDimsBig = []int32{-1, 0, 1, 2, 3, 0x8000, 0x10000, 0x7fffffff}
 
 // modInverse32 of an odd number modulo 2^32.
 func modInverse32(a uint32) uint32 {
@@ -1030,7 +1044,13 @@ func (e *executor) runGrid(ui int, t *dtarget, chunk int, skip map[int]bool) {
 								emit(typ, 0xc0, n, el, nd, append([]int32(nil), vec...))
 								return
 							}
-							for _, d := range gridDims {
+							// the dimension arithmetic does not depend on the element type: the large
+							// dimensions are combined with two element types only
+							ds := gridDimsSmall
+							if typ == 0x01 || typ == 0x18 {
+								ds = gridDimsBig
+							}
+							for _, d := range ds {
 								vec[i] = d
 								rec(i + 1)
 							}
@@ -1041,7 +1061,7 @@ func (e *executor) runGrid(ui int, t *dtarget, chunk int, skip map[int]bool) {
 							emit(typ, 0xc0, n, el, nd, []int32{2, 1, 1, 2})
 							emit(typ, 0xc0, n, el, nd, []int32{0x10000, 0x10000, 1, 1})
 						}
-						if nd >= 2 {
+						if nd >= 2 && (typ == 0x01 || typ == 0x18 || typ == 0x06) {
 							// d1 odd, d2 = n * d1^-1 (mod 2^32): the product wraps around to n
 							for _, d1 := range []uint32{3, 5, 0x10001, 0x7fffffff} {
 								d2 := uint32(n) * modInverse32(d1)
@@ -1151,6 +1171,9 @@ func executorMain(prop string) {
 			}
 		}
 	}()
+	runtime.GC()
+	runtime.GC()
+	e.lastProf = snapshotProfile()
 	out := bufio.NewWriter(os.Stdout)
 	e.out = out
 	enc := json.NewEncoder(out)
@@ -1162,6 +1185,9 @@ func executorMain(prop string) {
 		e.runUnit(k, sk)
 		enc.Encode(e.res)
 		out.Flush()
+		if p.units[k].Kind == "tower" {
+			os.Exit(0)
+		}
 	}
 	os.Exit(0)
 }
@@ -1340,7 +1366,7 @@ func superviseShard(prop string, s evid.ShardInfo, w *evid.Run, p *plan, assign 
 			break
 		}
 		if werr == nil {
-			evid.EngineError(prop, "executor exited cleanly after %d of %d units", start, len(mine))
+			continue // the executor retires after a tower unit (its address space has grown); start a fresh one
 		}
 		// death: attribute it to the published case
 		ui := int(binary.LittleEndian.Uint32(pub[0:]))
@@ -1352,7 +1378,7 @@ func superviseShard(prop string, s evid.ShardInfo, w *evid.Run, p *plan, assign 
 		}
 		stderr := hw.b.String()
 		if uint32(ui) == 0xffffffff || ui != start {
-			evid.EngineError(prop, "executor died outside a case (%v), published unit %d, expected %d: %s", werr, ui, start, tail(stderr, 600))
+			evid.EngineError(prop, "executor died outside a case (%v), published unit %d, expected %d: %s", werr, ui, start, firstLines(stderr, 8))
 		}
 		deaths++
 		unitDeaths++
@@ -1523,7 +1549,7 @@ func runC02(prop string) {
 		if thorough {
 			scope = "every type: all values with at most one deviation"
 		}
-		what := "decode returns a value or an error; no panic; the process survives; bytes allocated <= 1024*len(input)+16 MiB (runtime/metrics /gc/heap/allocs:bytes delta); no case uses more than 30 s of CPU time (watchdog; normal cost is microseconds)"
+		what := "decode returns a value or an error; no panic; the process survives; bytes allocated <= 1024*len(input)+16 MiB (runtime/metrics /gc/heap/allocs:bytes delta); no case uses more than 60 s of CPU time (watchdog; normal cost is microseconds)"
 		if prop == "C03" {
 			what = "for every input that decodes without error: Encode of the decoded value neither panics nor fails; decoding the re-encoding (alone, and followed by other data as inside a container) yields an equal value and consumes exactly the re-encoding"
 		}
